@@ -42,6 +42,9 @@ CHECKS = {
  "C18": ("exploration", "famworld+attr", "stateful PBT (Hypothesis): node-class/_root invariant after every step of mutator/rewrite/context programs; differential attribute-vs-item programs on attr dicts against a plain dict",
          "Part (a): after every step of generated programs (mutators, kind-changing outside rewrites, buffered contexts) every reachable node has exactly the family's dict/list class and the right root, and the deepest node persists a write. Part (b): generated get/set/del programs in attribute and item syntax over key pools incl. every protected name, public method name and dunders, at depth 0-3.",
          "attribute set/del of live internals not generated (reconfigures the object by design)", "3 C18"),
+ "C19": ("exploration", "zygote", "fresh-process differential PBT: fingerprint of a probe in a pristine forked child vs after a generated warm-up history; all ordered pairs enumerated, longer histories by Hypothesis",
+         "For a pool of ~75 values of diverse/ambiguous/same-named types, every resolver, validator and collection entry point is run on a probe value in a pristine fork and in a fork that first processed a warm-up history; fingerprints (category, accept/exception class, stored form, node classes) must be identical. All ordered pairs (warm-up length 1) are enumerated in both tiers, longer warm-ups are generated.",
+         "types exist before anything is processed; fork() copy of a zygote that has processed nothing; private numpy under .deps", "3 C19"),
 }
 
 def main():
@@ -80,6 +83,7 @@ def main():
             {"name": "c16-aliasing", "path": "vf/props/c16.py", "serves_properties": ["C16"], "kind_free_text": "aliasing metamorphic cases"},
             {"name": "roworld", "path": "vf/props/c17.py", "serves_properties": ["C17"], "kind_free_text": "read-only bufworld + audit hooks (vf/audit.py)"},
             {"name": "famworld+attr", "path": "vf/props/c18.py", "serves_properties": ["C18"], "kind_free_text": "family-closure world and attribute/item differential programs"},
+            {"name": "zygote", "path": "vf/props/c19.py", "serves_properties": ["C19"], "kind_free_text": "fork-per-case fresh-process oracle"},
             {"name": "world", "path": "vf/world.py", "serves_properties": ["C01", "C02", "C03", "C04"], "kind_free_text": "interpreter of generated step lists against the library and a plain dict/list model (Hypothesis-driven), with replay and minimisation"},
         ],
         "checks": checks,
